@@ -1,11 +1,28 @@
-(** FleetMendBProofs: the stage "ADD / DELETE request with a CURRENT fence in a mailbox" of the membership-change
+(** FleetMendBProofs: the stage "ADD / DELETE request with a CURRENT fence pending" of the membership-change
     pipeline - the round in which a membership change is applied.
 
     Part 1 (execution level): the NodeHost agent executing a queue in which such requests sit.  The membership
-    history changes in the middle of the execution; [bexec_one] / [bexec_all] generalise the execution lemmas of
-    FleetMendProofs.v to "the history changes only by appending one entry, for the shard of the executed request":
-    the host-side class [HMend] holds relative to the NEW history, the requests still pending keep their
-    classification relative to it, the replica that proposed the change knows the new version. *)
+    history changes in the middle of the execution; [bexec_one] generalises the execution lemmas of
+    FleetMendProofs.v to "the history changes only by appending ONE entry, for the shard of the executed request":
+    the host-side class [HMend] holds afterwards relative to the NEW history, every pending request keeps a
+    classification relative to it ([bq]: a harmless leftover / a request for a current member, or a live change
+    request), the replica that proposed the change knows the new version.  Generic facts about [exec_req]:
+    [exec_req_keys] (new data is the target of a CREATE), [exec_req_started], [exec_req_keep] (a running replica
+    of a shard whose history does not change is touched by its own KILL only), [exec_req_hist] (histories grow).
+    Part 2: the class of fleet states [MendP Bx] (FleetMendAProofs.MendA without the invariant, with live change
+    requests among the pending requests Bx), closed under the execution of one request ([mp_exec_req]) and of a
+    queue ([mp_exec_all]).
+    Part 3: [MendB] (round boundary) / [MendX] (mid-round) are closed under every event of a healthy round:
+    [mendb_report(s)], [mendx_exec(s)], [mendx_learn(s)], [mendx_tick(s)]; the scheduling step is analysed through
+    the state "as Drummer sees it" ([fict]: the Drummer DB does not change while the NodeHosts execute, so the
+    allowed outcomes are those of a Mend state, FleetMendProofs.mend_allowed; their requests are then re-classified
+    against the real history, which may be one entry ahead: [mendx_schedule]).
+    Theorems: [mendb_round] (one healthy round from MendB: MendB again, every pending request harmless),
+    [mendb_inert_round] (the next one: Mend), [mendb_heal] (detect_rounds + 6), [menda_mendb] (MendA ⊆ MendB),
+    [mendb_restb_sound] (the decidable part).
+    Not covered: live requests for a shard with a pending CREATE request or with a waiting joiner, an ADD onto a
+    NodeHost that holds data of the shard, members without data (the scheduler then answers with ADD / DELETE itself:
+    that is where C01_no_error_round and the fresh-id hypothesis come in). *)
 From stdpp Require Import gmap list numbers sorting.
 From Coq Require Import ZifyN ZifyNat ZifyBool Lia.
 From Drummer.Model Require Import DB Sched Fleet FleetRun MailboxSpec FleetRounds.
@@ -2067,4 +2084,104 @@ Proof.
     + intros a fh s rid lr h a' Hfh Hk. by apply (ma_home a (eraseq fh) s rid lr h a' (Hto a fh Hfh)).
     + intros a fh s rid lr Hfh Hk. by apply (ma_nostray a (eraseq fh) s rid lr (Hto a fh Hfh)).
   - intros a [qs Ha]. pose proof (forallb_map_to_list _ _ Hout a qs Ha) as Hz. cbn in Hz. by apply bool_decide_eq_true in Hz.
+Qed.
+
+(** * progress: the stage of the change (scheduled / applied or dropped / settled), then the rank of FleetMendProofs *)
+Definition liveb (st : fstate) : bool :=
+  existsb (λ aq : N * request, is_change aq.2 && (q_ccid aq.2 =? cur_version (hist_of (f_hist st) (q_shard aq.2)))) (pendingl st).
+Definition boxes_okb (st : fstate) : bool :=
+  forallb (λ aq : N * list request, forallb (okreqb st aq.1) aq.2) (map_to_list (d_requests (f_db st)))
+  && forallb (λ aq : N * list request, forallb (okreqb st aq.1) aq.2) (map_to_list (d_outgoing (f_db st)))
+  && forallb (λ ah : N * fhost, forallb (okreqb st ah.1) (fh_queue ah.2)) (map_to_list (f_hosts st)).
+(* 2: a change request with a current fence is pending; 1: none is, but Drummer's view is behind or the Outgoing
+   copies have not been replaced yet; 0: settled (the state is in Mend) *)
+Definition mendb_stage (st : fstate) : nat :=
+  if liveb st then 2%nat else if view_current st && boxes_okb st then 0%nat else 1%nat.
+
+Lemma okreqb_complete st a q : mharmless (f_hist st) a q → okreqb st a q = true.
+Proof.
+  assert (Hcur : ∀ h, f_hist st !! q_shard q = Some h → cur_members (hist_of (f_hist st) (q_shard q)) = cur_members h)
+    by (intros h Hh; unfold hist_of; by rewrite Hh).
+  unfold okreqb. cbn zeta.
+  intros [[(Hres & Hj & h & b & Hh & Hm)|[(Hch & Hf & Hmem & Haddr)|(Hk & y & Hy & Hd)]]|[(Hcr & Hj & Hre & h & Hh & Hm)|(Hres & Hj & h & Hh & Hnm & Hno & Hs0 & Hr0 & Ha0)]].
+  - rewrite Hres, Hj, (Hcur h Hh). cbn. assert (is_member (cur_members h) (q_inst q) = true) as -> by (apply is_member_true; by eexists). done.
+  - apply orb_true_iff; left. apply orb_true_iff; left. apply orb_true_iff; left. apply orb_true_iff; right.
+    rewrite Hch. cbn. assert ((q_ccid q =? cur_version (hist_of (f_hist st) (q_shard q))) = false) as -> by (by apply N.eqb_neq). cbn.
+    rewrite bool_decide_eq_false_2 by done. cbn. destruct (is_add q) eqn:Ea; [|done]. cbn. by rewrite bool_decide_eq_false_2 by (by apply Haddr).
+  - apply orb_true_iff; left. apply orb_true_iff; left. apply orb_true_iff; right. rewrite Hk, Hy. cbn.
+    apply negb_true_iff. unfold hist_of. destruct (f_hist st !! q_shard q) as [h|] eqn:Hh; cbn; [by apply Hd|]. apply is_member_false. by rewrite lookup_empty.
+  - apply orb_true_iff; left. apply orb_true_iff; right. rewrite Hcr, Hj, Hre, (Hcur h Hh). cbn. by rewrite bool_decide_eq_true_2.
+  - apply orb_true_iff; right. rewrite Hres, Hj, (Hcur h Hh). cbn. rewrite bool_decide_eq_true_2 by (by eexists). cbn.
+    assert (is_member (cur_members h) (q_inst q) = false) as -> by (by apply is_member_false). cbn.
+    assert (forallb (λ ra : N * N, negb (ra.2 =? a)) (map_to_list (cur_members h)) = true) as ->.
+    { apply forallb_forall. intros [r' a'] Hin. apply elem_of_list_In, elem_of_map_to_list in Hin. cbn. apply negb_true_iff, N.eqb_neq. intros ->. by apply (Hno r'). }
+    cbn. apply N.eqb_neq in Hs0, Hr0, Ha0. by rewrite Hs0, Hr0, Ha0.
+Qed.
+
+Lemma inert_liveb st : (∀ a q, nonout st a q → mharmless (f_hist st) a q) → liveb st = false.
+Proof.
+  intros Hin. unfold liveb. apply not_true_is_false. intros Hex. apply existsb_exists in Hex as ([a q] & Hq & Hx). cbn in Hx.
+  apply elem_of_list_In, pendingl_elem in Hq. apply andb_true_iff in Hx as [Hch Hf]. apply N.eqb_eq in Hf.
+  destruct (Hin a q Hq) as [[(Hres & _)|[(_ & Hne & _)|(Hk & _)]]|[(Hcr & _)|(Hres & _)]].
+  - by rewrite (restore_not_change q Hres) in Hch.
+  - done.
+  - by rewrite (kill_not_change q Hk) in Hch.
+  - unfold is_change, is_add, is_delete in Hch. unfold is_create in Hcr. by destruct (q_type q).
+  - by rewrite (restore_not_change q Hres) in Hch.
+Qed.
+
+Lemma liveb_inert st : MendB st → liveb st = false → ∀ a q, nonout st a q → mharmless (f_hist st) a q.
+Proof.
+  intros (_ & HP & _) Hl a q Hq. destruct (mp_boxes _ _ HP a q Hq) as [[? _]|[(Hch & Hf & _) _]]; [done|]. exfalso.
+  assert (liveb st = true); [|congruence]. unfold liveb. apply existsb_exists. exists (a, q). split; [apply elem_of_list_In; by apply pendingl_elem|].
+  cbn. rewrite Hch. cbn. by apply N.eqb_eq.
+Qed.
+
+Lemma mend_stage0 st : Mend st → mendb_stage st = 0%nat.
+Proof.
+  intros HM. unfold mendb_stage.
+  rewrite (inert_liveb st) by (intros a q [Hq|Hq]; apply (md_boxes _ HM); [by left|by right; right]).
+  rewrite (mend_view_current st HM). cbn [andb].
+  assert (boxes_okb st = true) as ->; [|done]. unfold boxes_okb. apply andb_true_iff; split; [apply andb_true_iff; split|].
+  - apply forallb_forall. intros [a qs] Hin. apply elem_of_list_In, elem_of_map_to_list in Hin. cbn. apply forallb_forall. intros q Hq. apply elem_of_list_In in Hq.
+    apply okreqb_complete, (md_boxes _ HM). left. eauto.
+  - apply forallb_forall. intros [a qs] Hin. apply elem_of_list_In, elem_of_map_to_list in Hin. cbn. apply forallb_forall. intros q Hq. apply elem_of_list_In in Hq.
+    apply okreqb_complete, (md_boxes _ HM). right; left. eauto.
+  - apply forallb_forall. intros [a fh] Hin. apply elem_of_list_In, elem_of_map_to_list in Hin. cbn. apply forallb_forall. intros q Hq. apply elem_of_list_In in Hq.
+    apply okreqb_complete, (md_boxes _ HM). right; right. eauto.
+Qed.
+
+Lemma stage0_mend st : MendB st → mendb_stage st = 0%nat → Mend st.
+Proof.
+  intros (HI & HP & Hoh) Hs. unfold mendb_stage in Hs. destruct (liveb st) eqn:El; [done|].
+  destruct (view_current st) eqn:Ev; [|done]. destruct (boxes_okb st) eqn:Eb; [|done]. clear Hs.
+  unfold boxes_okb in Eb. apply andb_true_iff in Eb as [Eb Hbq]. apply andb_true_iff in Eb as [Hbr Hbo].
+  apply (mp_mend (nonout st)); [done|done| |].
+  - intros s h c Hh Hc. pose proof (forallb_map_to_list _ _ Ev s h Hh) as Hx. cbn [fst snd] in Hx. rewrite Hc in Hx. by apply N.eqb_eq.
+  - intros a q [(qs & Hl & Hin)|[(qs & Hl & Hin)|(fh & Hl & Hin)]]; apply okreqb_sound.
+    + pose proof (forallb_map_to_list _ _ Hbr a qs Hl) as Hx. cbn [fst snd] in Hx. rewrite forallb_forall in Hx. apply Hx. by apply elem_of_list_In.
+    + pose proof (forallb_map_to_list _ _ Hbo a qs Hl) as Hx. cbn [fst snd] in Hx. rewrite forallb_forall in Hx. apply Hx. by apply elem_of_list_In.
+    + pose proof (forallb_map_to_list _ _ Hbq a fh Hl) as Hx. cbn [fst snd] in Hx. rewrite forallb_forall in Hx. apply Hx. by apply elem_of_list_In.
+Qed.
+
+(* the pair (stage, FleetMendProofs.mend_rank) decreases lexicographically in every healthy round while the fleet is
+   not healed: request scheduled (2) -> applied or dropped, view behind / stale copies (1) -> settled (0), then the
+   rank of the restore / join pipeline *)
+Theorem mendb_progress P st st' plogs nticks o :
+  MendB st → (∀ a, plogs a = true) → (0 < nticks)%nat → 0 < p_step P → N.of_nat nticks * p_step P ≤ p_ttl P →
+  healed P st = false → healthy_round P plogs nticks o st = Some st' →
+  (mendb_stage st' < mendb_stage st)%nat ∨
+  (mendb_stage st = 0%nat ∧ mendb_stage st' = 0%nat ∧ (mend_rank P st' < mend_rank P st)%nat).
+Proof.
+  intros HB Hpl Hnt Hstep Httl Hnh Hr.
+  destruct (liveb st) eqn:El.
+  - (* a live request is pending: after the round none is *)
+    left. destruct (mendb_round P st st' plogs nticks o HB Hpl Httl Hr) as (b & _ & _ & HB' & Hin').
+    unfold mendb_stage. rewrite El, (inert_liveb st' Hin'). destruct (_ && _); lia.
+  - pose proof (liveb_inert st HB El) as Hin.
+    destruct (mendb_inert_round P st st' plogs nticks o HB Hin Hpl Httl Hr) as (b & _ & _ & HM').
+    pose proof (mend_stage0 st' HM') as Hs'.
+    destruct (mendb_stage st) as [|n] eqn:Es.
+    + right. split; [done|]. split; [done|]. apply (mend_progress P st st' plogs nticks o); try done. by apply stage0_mend.
+    + left. lia.
 Qed.
